@@ -137,7 +137,7 @@ def option_set(rng):
 def run_shard(ctx):
     Model = scripted.make_model_class()
     rng = ctx.rng('c05')
-    lens = ctx.pick([4, 5], [3, 4, 5, 6])
+    lens = ctx.pick([3, 4, 5], [2, 3, 4, 5, 6, 7])
     si = 0
     for n in lens:
         for spec in spans.catalogue(n):
